@@ -52,6 +52,16 @@ CHECKS = {
              "to denote the specification for all machine states.",
         note="Trusted: vlib.realize.simulate, E1/E2, z3. Specification shapes are enumerated (bounded family), states are "
              "symbolic. Hand-built ordering constraints involve at least one store, as the front-end produces them."),
+    "C05": dict(
+        level="translation_validation", design="5/C05", engine="E1 EVM-SMT on pairs the real checker accepts",
+        technique="SMT block equivalence (z3 BV256) asked for every pair the real checker answers 'equal' for",
+        text="Pairs (B, B') built with the mutation operators the property names (operand swap, signed/unsigned and "
+             "shift-kind substitution, constant changes, dropped/duplicated/transposed stores, DUP/SWAP index) are given "
+             "to the real compare_asm_block_asm_format under four option sets; every acceptance is decided by the SMT "
+             "equivalence query over all machine states, a separating state is replayed on the concrete twin. "
+             "Reflexivity and exception-freedom are checked on every base block.",
+        note="Trusted: E1 semantics, z3. The external forves adapter is not exercised (no forves binary in the sandbox): "
+             "that clause of the property is outside the claim. Pairs outside the mutation families are not covered."),
     "C18": dict(
         level="translation_validation", design="5/C18", engine="z3 over enumerated formula shapes",
         technique="SMT equivalence (z3) of constructed formula, parsed SMT-LIB text and raw tree, for all valuations",
